@@ -153,6 +153,7 @@ func (c *Ctx) c17ErrorCode() {
 		}
 		return codeIdx, valIdx, seq == "BS0" && codeIdx >= 0 && valIdx >= 0
 	}
+	sectionCall := map[*ssa.Function]ssa.CallInstruction{}
 	var scanFields func(fn *ssa.Function, depth int)
 	scanFields = func(fn *ssa.Function, depth int) {
 		for _, b := range fn.Blocks {
@@ -173,6 +174,13 @@ func (c *Ctx) c17ErrorCode() {
 							}
 						}
 						bound := false
+						// a section of the frame: the helper is handed the whole flattened value and writes some of its fields
+						if section := writes && fn == ec && sectionArg(ci, h, en, fl); section {
+							R.Analysed(fname(h))
+							sectionCall[h] = ci
+							scanFields(h, depth-1)
+							continue
+						}
 						if writes {
 							for i, a := range ci.Common().Args {
 								if pth, okp := errorFieldPath(a); okp && i < len(h.Params) {
@@ -295,14 +303,27 @@ func (c *Ctx) c17ErrorCode() {
 		if at == nil {
 			at = site
 		}
+		scope := ec
+		inFrame := true // the decision is made on every path to End
+		if sc, isSection := sectionCall[at.Parent()]; isSection {
+			scope = at.Parent()
+			inFrame = endCall != nil && sc.Block().Dominates(endCall.Block())
+		}
 		switch code {
 		case 'S', 'C', 'M':
-			R.Check(endCall != nil && at.Block().Dominates(endCall.Block()), "C17.R1", "ErrorCode:unconditional:"+string(rune(code)), c.at(site), "severity, SQLSTATE and message are always present", "its block dominates End", "field '"+string(rune(code))+"' is not emitted on every path")
+			always := endCall != nil && at.Block().Dominates(endCall.Block())
+			if scope != ec {
+				always = inFrame
+				for _, r := range returns(scope) {
+					always = always && at.Block().Dominates(r.Block())
+				}
+			}
+			R.Check(always, "C17.R1", "ErrorCode:unconditional:"+string(rune(code)), c.at(site), "severity, SQLSTATE and message are always present", "its block dominates End", "field '"+string(rune(code))+"' is not emitted on every path")
 		default:
 			// guarded by own non-emptiness
 			top := strings.Split(field, ".")[0]
 			guarded := false
-			for _, b := range ec.Blocks {
+			for _, b := range scope.Blocks {
 				for _, in := range b.Instrs {
 					cmp, ok := in.(*ssa.BinOp)
 					if !ok || (cmp.Op != token.NEQ && cmp.Op != token.EQL) {
@@ -330,9 +351,38 @@ func (c *Ctx) c17ErrorCode() {
 					}
 				}
 			}
+			guarded = guarded && inFrame
 			R.Check(guarded, "C17.R1", "ErrorCode:optional-guard:"+string(rune(code)), c.at(site), "optional field '"+string(rune(code))+"' is sent exactly when Error."+top+" was set", "dominated by the Error."+top+" non-empty edge", "field '"+string(rune(code))+"' is not guarded by the non-emptiness of Error."+top)
 		}
 	}
+}
+
+// sectionArg: the call hands the helper the flattened error itself (the result of Flatten, directly or through the
+// local that holds it) in a parameter of the Error type.
+func sectionArg(ci ssa.CallInstruction, h *ssa.Function, en *types.Named, fl *ssa.Function) bool {
+	for i, a := range ci.Common().Args {
+		if i >= len(h.Params) || en == nil || !types.Identical(a.Type(), en) {
+			continue
+		}
+		v := a
+		if u, isLoad := a.(*ssa.UnOp); isLoad && u.Op == token.MUL {
+			if al, isAlloc := u.X.(*ssa.Alloc); isAlloc {
+				var stores []*ssa.Store
+				for _, r := range core.Referrers(al) {
+					if st, isSt := r.(*ssa.Store); isSt && st.Addr == ssa.Value(al) {
+						stores = append(stores, st)
+					}
+				}
+				if len(stores) == 1 {
+					v = stores[0].Val
+				}
+			}
+		}
+		if call, ok := v.(*ssa.Call); ok && fl != nil && core.StaticCallee(call) == fl {
+			return true
+		}
+	}
+	return false
 }
 
 func describePath(p string, ok bool) string {
